@@ -8,6 +8,7 @@ import (
 	"io"
 	"net"
 	"os"
+	"runtime"
 	"runtime/debug"
 	"testing"
 	"time"
@@ -128,6 +129,7 @@ func TestVerifC06UDPRace(t *testing.T) {
 	}
 	if r.ShouldRun() {
 		shard, nshards := r.NShards()
+		execs := 0
 		pre := vrt.Pick(r, 3, -1)
 		r.Bound("udp_race_preemptions", vrt.Pick(r, "3", "unbounded"))
 		for ni, n := range []int{2, 3} {
@@ -137,7 +139,12 @@ func TestVerifC06UDPRace(t *testing.T) {
 			var env *c06rEnv
 			found := 0
 			st := xsched.Explore(xsched.Config{MaxPreemptions: pre, MaxDeviations: 0, Stop: r.Expired},
-				func(s *xsched.Sched) { env = c06rSetup(n, s) },
+				func(s *xsched.Sched) {
+					if execs++; execs%2000 == 0 {
+						runtime.GC()
+					}
+					env = c06rSetup(n, s)
+				},
 				func(x *xsched.Exec) bool {
 					r.Eval()
 					r.Trans(len(x.Sched.Trace))
